@@ -571,7 +571,7 @@ func checkC14(c *Ctx) {
 			if inner, ok := unparen(call.Args[0]).(*ast.CallExpr); ok {
 				if sel, ok := unparen(inner.Fun).(*ast.SelectorExpr); ok && sel.Sel.Name == "String" {
 					if id := identOf(sel.X); id != nil {
-						if obj, ok := info.Uses[id].(*types.Var); ok && !obj.IsField() && obj.Parent() != obj.Pkg().Scope() && obj.Pos() > render.Body.Pos() {
+						if obj, ok := info.Uses[id].(*types.Var); ok && !obj.IsField() && obj.Parent() != obj.Pkg().Scope() && obj.Pos() > render.Body.Pos() && freshLocalObject(w, render, obj) {
 							okLocal = true
 						}
 					}
@@ -668,7 +668,7 @@ func c14R4WrittenOut(c *Ctx, m *runnerModel) {
 				return true
 			})
 			okLocal := false
-			if v, ok := builder.(*types.Var); ok && parse != nil && !v.IsField() && v.Parent() != v.Pkg().Scope() && v.Pos() > f.Body.Pos() {
+			if v, ok := builder.(*types.Var); ok && parse != nil && !v.IsField() && v.Parent() != v.Pkg().Scope() && v.Pos() > f.Body.Pos() && freshLocalObject(w, f, v) {
 				okLocal = true
 			}
 			c.ob("C14.R4", key+"/text-built-locally", w.Pos(r.Pos()), okLocal, map[bool]string{true: "the text handed to ParseMarkup is the content of a builder declared in this call and filled by this loop", false: "the builder this loop fills is not a local whose content is handed to the runner's ParseMarkup"}[okLocal])
@@ -783,4 +783,51 @@ func c14Fresh(c *Ctx) {
 	if n == 0 {
 		c.undecided("C14.R5", "no Line literal with a ParseResult was found in Next")
 	}
+}
+
+// freshLocalObject: the local denotes an object created in this call — declared without a value (`var b T`), or bound,
+// every time it is assigned, to a composite literal, its address or new(T). A local that holds the address of a field
+// (`text := &dr.lineText`) is a name for the runner's own memory, not a local object.
+func freshLocalObject(w *World, f *Func, v *types.Var) bool {
+	info := f.Pkg.TypesInfo
+	as := w.ent(f).assigns[v]
+	if len(as) == 0 {
+		return false
+	}
+	for _, a := range as {
+		switch d := a.(type) {
+		case *ast.ValueSpec:
+			for i, nm := range d.Names {
+				if info.Defs[nm] == types.Object(v) && i < len(d.Values) && !freshObjectExpr(info, d.Values[i]) {
+					return false
+				}
+			}
+		case *ast.AssignStmt:
+			if len(d.Lhs) != len(d.Rhs) {
+				return false
+			}
+			for i, l := range d.Lhs {
+				if id := identOf(l); id != nil && (info.Defs[id] == types.Object(v) || info.Uses[id] == types.Object(v)) && !freshObjectExpr(info, d.Rhs[i]) {
+					return false
+				}
+			}
+		default:
+			return false
+		}
+	}
+	return true
+}
+
+func freshObjectExpr(info *types.Info, e ast.Expr) bool {
+	e = unparen(e)
+	if u, ok := e.(*ast.UnaryExpr); ok && u.Op == token.AND {
+		e = unparen(u.X)
+	}
+	switch x := e.(type) {
+	case *ast.CompositeLit:
+		return true
+	case *ast.CallExpr:
+		return isBuiltin(info, x, "new")
+	}
+	return false
 }
